@@ -9,7 +9,7 @@ model (2-D array of 5-tuples) maintained by the harness.
 Level: fault_enumeration (crash index ranges over every cell / every yield for the
 swept shapes), seeded histories of successive edits on top.
 """
-from .. import env, seeds, simio  # noqa: F401
+from .. import env, seeds, simio, noise  # noqa: F401
 from ..runner import Acc
 from ..simio import HarnessTimeout, SimCancel
 
@@ -212,6 +212,9 @@ def execute(case):
     log = []
     for i, op in enumerate(case["ops"]):
         k = op["k"]
+        if k == "bgload":
+            noise.run(op)
+            continue
         if k == "setup":
             lines, tracks = max(1, op["lines"]), max(1, min(32, op["tracks"]))
             w.pattern = Pattern(lines=lines, tracks=tracks)
@@ -469,6 +472,7 @@ def generate(seed, i, tier="quick"):
             if r.random() < 0.2:
                 plan["dup"] = True
         ops.append({"k": "bulk", "setter": setter, "plan": plan, "seed": r.randrange(1 << 30), "style": r.randrange(6), "observe": r.random() < 0.8})
+    noise.sprinkle(r, ops)
     return {"property": PROPERTY, "world": "bulk", "ops": ops}
 
 
